@@ -1,3 +1,3 @@
 import MpfVerif.DriverLoop
-import MpfVerif.Model.Framing
-def main : IO UInt32 := MpfVerif.runDriver MpfVerif.Framing.driverStep {}
+import MpfVerif.Model.Framing2
+def main : IO UInt32 := MpfVerif.runDriver MpfVerif.Framing2.driverStep {}
